@@ -377,6 +377,9 @@ def plan(tier, seed):
             specs.append({"kind": "robust", "variant": v, "sub": i, "cases": 150 if q else 6000, "budget_s": 110 if q else 600})
     for i in range(2 if q else 8):
         specs.append({"kind": "accessor", "sub": i, "cases": 24 if q else 400, "budget_s": 110 if q else 600})
+    for v in ("ws2dwcv", "ws2dwcvp"):
+        for i in range(1 if q else 4):
+            specs.append({"kind": "screen", "variant": v, "sub": i, "rounds": 8 if q else 60, "rows": 4000, "take": 6, "budget_s": 110 if q else 600})
     return specs
 
 
@@ -384,6 +387,8 @@ def run_shard(spec, R):
     kind = spec["kind"]
     if kind == "accessor":
         return shard_accessor(spec, R)
+    if kind == "screen":
+        return shard_screen(spec, R)
     variant = spec["variant"]
     rng = np.random.default_rng([spec["seed"], 5, {"nonrobust": 1, "robust": 2}[kind], S.VARIANTS.index(variant), spec["sub"]])
     S.warm([variant, "ws2dgu" if variant == "ws2dwcv" else "ws2dpgu"])
@@ -399,6 +404,47 @@ def run_shard(spec, R):
             check_nonrobust(R, variant, yy, nodata, llas, p)
         else:
             check_robust(R, variant, yy, nodata, llas, p, ykind)
+
+
+def shard_screen(spec, R):
+    """Workload selection for rare robust paths.  Thousands of quiet series with a few spikes are pushed through the real
+    robust kernel in one broadcast call; the handful whose output strays furthest from the data (and every one that
+    leaves the range of its input) is then given to the full robust oracle.  The screening decides nothing: it only
+    chooses which executions the monitors look at, so that a weight vector that collapses on one series in a thousand
+    is among them."""
+    variant = spec["variant"]
+    rng = np.random.default_rng([spec["seed"], 5, 9, S.VARIANTS.index(variant), spec["sub"]])
+    S.warm([variant, "ws2dgu" if variant == "ws2dwcv" else "ws2dpgu"])
+    k = S.K(variant)
+    nodata = -3000.0
+    for rnd in range(spec["rounds"]):
+        if R.out_of_time():
+            R.count("stopped_on_budget")
+            break
+        n = int(rng.choice([10, 12, 16, 20, 24, 30, 40]))
+        rows = spec["rows"]
+        Y = rng.integers(50, 3000, (rows, 1)).astype(float) + rng.choice([-2, -1, 0, 0, 0, 1, 1, 2], (rows, n))
+        for _ in range(3):
+            hit = rng.random(rows) < [1.0, 0.6, 0.3][_]
+            pos = rng.integers(0, n, rows)
+            amp = rng.integers(300, 3000, rows) * rng.choice([-1, 1], rows)
+            Y[np.flatnonzero(hit), pos[hit]] += amp[hit]
+        llas = np.arange(-1.8, 4.2, 0.2) if rnd % 2 == 0 else S.gen_llas(rng)
+        p = None if variant == "ws2dwcv" else float(rng.choice([0.1, 0.5, 0.9, rng.uniform(0.02, 0.98)]))
+        with np.errstate(all="ignore"):
+            if variant == "ws2dwcv":
+                band, lopt = k(Y, nodata, llas, True)
+            else:
+                band, lopt = k(Y, nodata, p, llas, True)
+        R.count("screened_series", rows)
+        med = np.median(Y, axis=1, keepdims=True)
+        score = np.max(np.abs(band - med), axis=1) / (np.max(np.abs(Y - med), axis=1) + 1.0)
+        order = np.argsort(score)[::-1]
+        chosen = [int(i) for i in order[:spec["take"]]] + [int(i) for i in np.flatnonzero(score > 1.05)[:spec["take"]]]
+        R.note_max("screen_max_excursion_ratio", float(score.max()))
+        for i in dict.fromkeys(chosen):
+            R.count("screened_series_given_to_the_robust_oracle")
+            check_robust(R, variant, Y[i].copy(), nodata, llas, p, "nearflat")
 
 
 def finalize(agg, tier):
